@@ -143,8 +143,11 @@ class ScriptDriver:
     """Random application script over subchannels: listen / open / write / close on both sides."""
 
     def __init__(self, dp, rng, names=("p0", "p1"), max_opens=3, max_writes=30, sizes=(1, 10, 200, 5000, 70000, (65490, 65545), (131010, 131070)),
-                 late_listen=0.3, half=0.0, close_prob=0.5, listen_names=None):
+                 late_listen=0.3, half=0.0, close_prob=0.5, listen_names=None, pauses=0):
         self.dp, self.rng = dp, rng
+        self.pauses = pauses           # budget of application-level pauseProducing() calls (each is resumed later)
+        self.pauses_done = 0
+        self.resumes_offline = 0
         self.world = dp.world
         self.names = list(names)
         self.listen_names = {n: list(listen_names[n]) if listen_names else list(names) for n in "AB"}
@@ -215,7 +218,20 @@ class ScriptDriver:
         except Exception as e:
             self.write_errors.append((p.name, type(e).__name__, repr(e)[:100]))
 
+    def pause(self, p):
+        p.app_paused = True
+        self.pauses_done += 1
+        p.transport.pauseProducing()
+
+    def resume(self, p):
+        p.app_paused = False
+        if not self.dp.both_connected():
+            self.resumes_offline += 1
+        p.transport.resumeProducing()
+
     def close(self, p):
+        if getattr(p, "app_paused", False):
+            self.resume(p)
         p.closed_local = True
         p.close_step = self.world.step
         try:
@@ -226,12 +242,22 @@ class ScriptDriver:
         except Exception as e:
             self.write_errors.append((p.name, "close:" + type(e).__name__, repr(e)[:100]))
 
-    def actions(self):
+    def actions(self, draining=False):
         if self.stop:
             return []
         acts = []
         rng = self.rng
         for side in "AB":
+            for p in self.protos(side):
+                if getattr(p, "app_paused", False) and "lost" not in [e[0] for e in p.events]:
+                    acts.append((("app", side, "resume"), lambda p=p: self.resume(p)))
+            if self.pauses > 0 and not draining:
+                cand = [p for p in self.protos(side) if self.is_open(p) and not getattr(p, "app_paused", False)]
+                if cand:
+                    def pa(cand=cand):
+                        self.pauses -= 1
+                        self.pause(rng.choice(cand))
+                    acts.append((("app", side, "pause"), pa))
             if self.pending_listen[side]:
                 def li(side=side):
                     self.listen(side, self.pending_listen[side].pop(0))
@@ -253,7 +279,8 @@ class ScriptDriver:
                 acts.append((("app", side, "close"), cl))
         return acts
 
-    drain_actions = actions
+    def drain_actions(self):
+        return self.actions(draining=True)
 
     def pairs(self):
         """[(opener record, acceptor proto or None)] matched per (opener side, name) in FIFO order"""
